@@ -99,5 +99,14 @@ CLAIMED['C04'] = {
     'note': 'Token alphabet [a-z0-9-@], one symbolic token per name; decoy lists on the other direction make role confusion visible; known finding: unknown names of vulnerable shape cannot carry the note.',
 }
 
+CLAIMED['C13'] = {
+    'engines': 'ZX',
+    'technique': 'symbolic execution of the real report (output -> post-processing -> get_recommendations) for banners with symbolic version digits; the recommendation set is compared clause by clause with the ratings shown in the same document; availability oracle = numeric version comparison',
+    'text': 'For every version of the listed shapes of each recognised product (and unrecognised/no software), four advertised server sets plus a symbolic unknown cipher, z3 explores '
+            'all version-dependent paths of the real pass over the whole current table: removals are advertised and rated; rated-and-known algorithms are recommended for removal; '
+            'critical iff failure; additions are clean, unadvertised, not cert/sk/pseudo and available; nothing twice; no additions for unrecognised software.',
+    'note': 'Advertised sets are concrete (4 sets), versions symbolic; relies on C14 (order) and C03 (ratings == rows); <10 warnings per row checked over the table; known finding: gss-* never recommended for removal.',
+}
+
 NOT_APPLICABLE = {
 }
